@@ -220,6 +220,12 @@ def run(ctx):
         corpus.append(neoxsim.NCfg(rng, pp=1, dp=2, mp=mp, blocks=1, fus=1, ius=ius, prediv=False, accum=1,
                                    damping=[Fraction(1, 4), Fraction(1, 16), Fraction(1, 2), Fraction(1, 8)],
                                    ops=['f1', 's'] * 4, cap_mb=0.0))
+    # one communicator carries two live groups per rank (data-parallel group of the sharded-side factors on the primaries,
+    # stage peers for the replicated side): capacities that hold a sharded-side factor alone but not two in a row, so that
+    # one group's bucket overflows while the other group's bucket is still open
+    for cap, blocks in ((0.0006, 2), (0.0011, 2), (0.0006, 1)):
+        corpus.append(neoxsim.NCfg(rng, pp=1, dp=2, mp=2, blocks=blocks, din=3, hidden=8, bias_col=False, bias_row=False, fus=1, ius=1,
+                                   accum=1, hook=True, sym=False, cap_mb=cap, ops=['f1', 's'] * 2))
     # micro-batches of different sizes inside an accumulation window (model-parallel degree 1: the gathers are no collectives,
     # so the script does not depend on the row counts)
     for accum, dp in ((2, 2), (3, 1), (2, 1)):
